@@ -100,11 +100,22 @@ def _worker(args):
 
 
 def run_selftest(prop_id: str = None, root: str = None, jobs: int = None,
-                 corpus: bool = True) -> list:
+                 corpus: bool = True, twin_sample: int = None, seed: int = 0) -> list:
     chosen = [v for v in VARIANTS if prop_id is None or v['property'] == prop_id]
     if corpus:
         from .corpus import corpus_variants
-        chosen += corpus_variants(prop_id)
+        found = corpus_variants(prop_id)
+        refactorings = [v for v in found if v['id'].startswith('refactoring-')]
+        if twin_sample is not None and len(refactorings) > twin_sample:
+            # a rotating sample of the refactorings (every one of them is analysed for all
+            # properties by tools/corpuscheck.py; a thorough run of one property takes a
+            # different slice for every VERIF_SEED)
+            step = -(-len(refactorings) // twin_sample)
+            keep = {id(v) for index, v in enumerate(refactorings)
+                    if (index + seed) % step == 0}
+            found = [v for v in found if not v['id'].startswith('refactoring-')
+                     or id(v) in keep]
+        chosen += found
     if not chosen:
         return []
     jobs = jobs or min(16, os.cpu_count() or 4, len(chosen))
